@@ -106,27 +106,44 @@ Section Names.
 End Names.
 
 (* ---------- the three statements about one composite ---------- *)
-Lemma to_add_keys_are_new gs g k :
-  In k (keys (to_add gs g)) -> forall a, In a (ganchors g) -> fst a <> k.
+(* (stated for any split of the components into bases and marks: the plain one and the one with a promoted mark) *)
+Lemma to_add_with_keys_are_new gs g bases marks k :
+  In k (keys (to_add_with gs g bases marks)) -> forall a, In a (ganchors g) -> fst a <> k.
 Proof.
-  unfold to_add. intros H a Ha E. apply fold_adjust_keys in H.
+  unfold to_add_with. intros H a Ha E. apply fold_adjust_keys in H.
   apply (names_fold_keys gs _ (ganchors g)) in H. destruct H as [[]|[n [_ [G P]]]].
   unfold guard in G. assert (T : existsb (fun a0 => prefix n (fst a0)) (ganchors g) = true).
   { apply existsb_exists. exists a. split; [exact Ha|]. rewrite E. exact P. }
   exact (eq_true_false_abs _ T G). Qed.
+
+Lemma to_add_promoted_keys_are_new gs g j k :
+  In k (keys (to_add_promoted gs g j)) -> forall a, In a (ganchors g) -> fst a <> k.
+Proof. unfold to_add_promoted, to_add. destruct (nth_error (marks_of gs g) j); apply to_add_with_keys_are_new. Qed.
+
+Theorem propagation_never_overrides_p gs mk promo name g g' :
+  propagate_step_p gs mk promo name g = Some g' ->
+  gcontours g' = gcontours g /\ gcomps g' = gcomps g /\ gwidth g' = gwidth g /\
+  exists added, ganchors g' = ganchors g ++ added /\
+                forall k v, In (k, v) added -> forall a, In a (ganchors g) -> fst a <> k.
+Proof.
+  unfold propagate_step_p. destruct (skipped mk name g).
+  - intro H. inversion H. subst g'. repeat split. exists []. rewrite app_nil_r. split; [reflexivity|intros k v []].
+  - destruct (promotes gs name g).
+    + destruct (assoc name promo) as [j|]; [|discriminate]. intro H. inversion H. subst g'. simpl. repeat split.
+      exists (sorted_items (to_add_promoted gs g j)). split; [reflexivity|]. intros k v Hin a Ha.
+      apply (to_add_promoted_keys_are_new gs g j k); [|exact Ha].
+      apply sorted_items_in in Hin. apply in_map_iff. exists (k, v). auto.
+    + intro H. inversion H. subst g'. simpl. repeat split.
+      exists (sorted_items (to_add gs g)). split; [reflexivity|]. intros k v Hin a Ha.
+      apply (to_add_with_keys_are_new gs g (bases_of gs g) (marks_of gs g) k); [|exact Ha].
+      apply sorted_items_in in Hin. apply in_map_iff. exists (k, v). auto. Qed.
 
 Theorem propagation_never_overrides gs mk name g g' :
   propagate_step gs mk name g = Some g' ->
   gcontours g' = gcontours g /\ gcomps g' = gcomps g /\ gwidth g' = gwidth g /\
   exists added, ganchors g' = ganchors g ++ added /\
                 forall k v, In (k, v) added -> forall a, In a (ganchors g) -> fst a <> k.
-Proof.
-  unfold propagate_step. destruct (skipped mk name g).
-  - intro H. inversion H. subst g'. repeat split. exists []. rewrite app_nil_r. split; [reflexivity|intros k v []].
-  - destruct (promotes gs name g); [discriminate|]. intro H. inversion H. subst g'. simpl. repeat split.
-    exists (sorted_items (to_add gs g)). split; [reflexivity|]. intros k v Hin a Ha.
-    apply (to_add_keys_are_new gs g k); [|exact Ha].
-    apply sorted_items_in in Hin. apply in_map_iff. exists (k, v). auto. Qed.
+Proof. apply propagation_never_overrides_p. Qed.
 
 (* where an added anchor sits: some component maps an anchor of its own glyph there *)
 Definition image_of_a_component (gs : glyphset) (g : glyph) (v : pt) : Prop :=
@@ -167,32 +184,55 @@ Section Values.
     exists c, b, (fst a), (snd a). repeat split; auto. rewrite <- surjective_pairing. apply Hsub. left. reflexivity. Qed.
 End Values.
 
-Theorem added_anchor_is_a_component_image gs mk name g g' k v :
-  propagate_step gs mk name g = Some g' -> In (k, v) (ganchors g') -> In (k, v) (ganchors g) \/ image_of_a_component gs g v.
+Lemma to_add_with_ok gs g bases marks :
+  (forall c, In c bases -> In c (gcomps g)) -> (forall c, In c marks -> In c (gcomps g)) -> ok gs g (to_add_with gs g bases marks).
 Proof.
-  unfold propagate_step. destruct (skipped mk name g); [intro H; inversion H; auto|].
-  destruct (promotes gs name g); [discriminate|]. intro H. inversion H. subst g'. simpl. intro Hin.
-  apply in_app_or in Hin. destruct Hin as [Hin|Hin]; [auto|]. right. apply sorted_items_in in Hin. revert k v Hin.
-  change (ok gs g (to_add gs g)). unfold to_add.
-  set (comps := filter (present gs) (gcomps g)).
-  assert (Hsub : forall c, In c comps -> In c (gcomps g)) by (intros c Hc; apply filter_In in Hc; tauto).
-  assert (Hm : forall c, In c (filter (comp_is_mark gs) comps) -> In c (gcomps g)) by (intros c Hc; apply filter_In in Hc; apply Hsub; tauto).
-  assert (Hb : forall c, In c (filter (fun c => negb (comp_is_mark gs c)) comps) -> In c (gcomps g)) by (intros c Hc; apply filter_In in Hc; apply Hsub; tauto).
+  intros Hb Hm. unfold to_add_with.
   assert (H0 : ok gs g (fold_left (fun acc n => if existsb (fun a => prefix n (fst a)) (ganchors g) then acc
-                                                 else get_anchor_data gs (filter (fun c => negb (comp_is_mark gs c)) comps) n acc)
-                                  (sort_str (dedup (flat_map (fun c => match lookup (fst c) gs with Some b => map fst (ganchors b) | None => [] end)
-                                                             (filter (fun c => negb (comp_is_mark gs c)) comps)))) [])).
-  { generalize (sort_str (dedup (flat_map (fun c => match lookup (fst c) gs with Some b => map fst (ganchors b) | None => [] end)
-                                          (filter (fun c => negb (comp_is_mark gs c)) comps)))).
+                                                 else get_anchor_data gs bases n acc)
+                                  (sort_str (dedup (flat_map (fun c => match lookup (fst c) gs with Some b => map fst (ganchors b) | None => [] end) bases))) [])).
+  { generalize (sort_str (dedup (flat_map (fun c => match lookup (fst c) gs with Some b => map fst (ganchors b) | None => [] end) bases))).
     intro names. assert (Hnil : ok gs g []) by (intros k v []). revert Hnil. generalize (@nil (str * pt)).
     induction names as [|n names IH]; intros acc Hacc; simpl; [exact Hacc|]. apply IH.
     destruct (existsb _ (ganchors g)); [exact Hacc|]. apply ok_gad; assumption. }
   revert H0. generalize (fold_left (fun acc n => if existsb (fun a => prefix n (fst a)) (ganchors g) then acc
-                                                 else get_anchor_data gs (filter (fun c => negb (comp_is_mark gs c)) comps) n acc)
-                                  (sort_str (dedup (flat_map (fun c => match lookup (fst c) gs with Some b => map fst (ganchors b) | None => [] end)
-                                                             (filter (fun c => negb (comp_is_mark gs c)) comps)))) []).
-  revert Hm. generalize (filter (comp_is_mark gs) comps). intro marks. induction marks as [|c marks IH]; intros Hm acc Hacc; simpl; [exact Hacc|].
+                                                 else get_anchor_data gs bases n acc)
+                                  (sort_str (dedup (flat_map (fun c => match lookup (fst c) gs with Some b => map fst (ganchors b) | None => [] end) bases))) []).
+  revert Hm. induction marks as [|c marks IH]; intros Hm acc Hacc; simpl; [exact Hacc|].
   apply IH; [intros; apply Hm; right; assumption|]. apply ok_adjust; [apply Hm; left; reflexivity | exact Hacc]. Qed.
+
+Lemma bases_of_sub gs g c : In c (bases_of gs g) -> In c (gcomps g).
+Proof. unfold bases_of. intro H. apply filter_In in H. destruct H as [H _]. apply filter_In in H. tauto. Qed.
+Lemma marks_of_sub gs g c : In c (marks_of gs g) -> In c (gcomps g).
+Proof. unfold marks_of. intro H. apply filter_In in H. destruct H as [H _]. apply filter_In in H. tauto. Qed.
+Lemma remove_nth_sub {A} k (l : list A) x : In x (remove_nth k l) -> In x l.
+Proof. revert k. induction l as [|y l IH]; intros k H; [destruct k; exact H|]. destruct k as [|k]; simpl in H; [right; exact H|].
+  destruct H as [H|H]; [left; exact H | right; exact (IH _ H)]. Qed.
+
+Lemma to_add_promoted_ok gs g j : ok gs g (to_add_promoted gs g j).
+Proof.
+  unfold to_add_promoted, to_add. destruct (nth_error (marks_of gs g) j) as [c|] eqn:E.
+  - apply to_add_with_ok.
+    + intros x Hx. apply in_app_or in Hx. destruct Hx as [Hx|[Hx|[]]]; [exact (bases_of_sub _ _ _ Hx)|].
+      subst x. apply (marks_of_sub gs). exact (nth_error_In _ _ E).
+    + intros x Hx. apply (marks_of_sub gs). exact (remove_nth_sub _ _ _ Hx).
+  - apply to_add_with_ok; [apply bases_of_sub | apply marks_of_sub]. Qed.
+
+Theorem added_anchor_is_a_component_image_p gs mk promo name g g' k v :
+  propagate_step_p gs mk promo name g = Some g' -> In (k, v) (ganchors g') -> In (k, v) (ganchors g) \/ image_of_a_component gs g v.
+Proof.
+  unfold propagate_step_p. destruct (skipped mk name g); [intro H; inversion H; auto|].
+  destruct (promotes gs name g).
+  - destruct (assoc name promo) as [j|]; [|discriminate]. intro H. inversion H. subst g'. simpl. intro Hin.
+    apply in_app_or in Hin. destruct Hin as [Hin|Hin]; [auto|]. right. apply sorted_items_in in Hin.
+    exact (to_add_promoted_ok gs g j k v Hin).
+  - intro H. inversion H. subst g'. simpl. intro Hin.
+    apply in_app_or in Hin. destruct Hin as [Hin|Hin]; [auto|]. right. apply sorted_items_in in Hin.
+    exact (to_add_with_ok gs g _ _ (bases_of_sub gs g) (marks_of_sub gs g) k v Hin). Qed.
+
+Theorem added_anchor_is_a_component_image gs mk name g g' k v :
+  propagate_step gs mk name g = Some g' -> In (k, v) (ganchors g') -> In (k, v) (ganchors g) \/ image_of_a_component gs g v.
+Proof. apply added_anchor_is_a_component_image_p. Qed.
 
 (* ---------- applying it a second time adds nothing ---------- *)
 Lemma dedup_In x l : In x (dedup l) <-> In x l.
@@ -222,36 +262,55 @@ Proof. unfold base_names. intro H. apply (proj1 (sort_str_In _ _)) in H. apply (
   { unfold hits. apply in_flat_map. exists c. split; [exact Hc|]. rewrite L, A. left. reflexivity. }
   rewrite E in Hin. destruct Hin. Qed.
 
-Lemma to_add_unfold gs g :
-  to_add gs g = fold_left (adjust gs) (filter (comp_is_mark gs) (filter (present gs) (gcomps g)))
-                  (fold_left (step gs (filter (fun c => negb (comp_is_mark gs c)) (filter (present gs) (gcomps g))) (ganchors g))
-                             (base_names gs (filter (fun c => negb (comp_is_mark gs c)) (filter (present gs) (gcomps g)))) []).
+Lemma to_add_with_unfold gs g bases marks :
+  to_add_with gs g bases marks = fold_left (adjust gs) marks (fold_left (step gs bases (ganchors g)) (base_names gs bases) []).
 Proof. reflexivity. Qed.
 
 Lemma existsb_app_l {A} (f : A -> bool) l1 l2 : existsb f l1 = true -> existsb f (l1 ++ l2) = true.
 Proof. intro H. rewrite existsb_app, H. reflexivity. Qed.
 
+(* a second run over the composite WITH the anchors of the first adds nothing, whatever the split *)
+Lemma second_to_add_with_nil gs g bases marks g1 :
+  gcomps g1 = gcomps g -> ganchors g1 = ganchors g ++ sorted_items (to_add_with gs g bases marks) ->
+  to_add_with gs g1 bases marks = [].
+Proof.
+  intros Ec Ea. rewrite to_add_with_unfold.
+  rewrite fold_all_guarded; [apply fold_adjust_nil|].
+  intros n Hn. unfold guard. rewrite Ea.
+  destruct (guard (ganchors g) n) eqn:G; [apply existsb_app_l; exact G|].
+  destruct (names_fold_covers gs _ (ganchors g) _ [] n Hn G (base_names_hit _ _ _ Hn)) as [k [Hp Hk]].
+  rewrite existsb_app. apply orb_true_iff. right. apply existsb_exists.
+  assert (Hk2 : In k (keys (sorted_items (to_add_with gs g bases marks)))).
+  { apply sorted_items_keys. rewrite to_add_with_unfold. apply fold_adjust_keys. exact Hk. }
+  unfold keys in Hk2. apply in_map_iff in Hk2. destruct Hk2 as [[k' v] [E Hin]]. simpl in E. subst k'.
+  exists (k, v). split; [exact Hin | exact Hp]. Qed.
+
+Theorem second_run_adds_nothing_p gs mk promo name g g' :
+  propagate_step_p gs mk promo name g = Some g' -> propagate_step_p gs mk promo name g' = Some g'.
+Proof.
+  unfold propagate_step_p. destruct (skipped mk name g) eqn:S.
+  - intro H. inversion H. subst g'. rewrite S. reflexivity.
+  - destruct (promotes gs name g) eqn:P.
+    + destruct (assoc name promo) as [j|] eqn:A; [|discriminate]. intro H. inversion H. clear H.
+      set (g1 := mkG (gcontours g) (gcomps g) (gwidth g) (ganchors g ++ sorted_items (to_add_promoted gs g j))).
+      destruct (skipped mk name g1); [reflexivity|].
+      assert (P1 : promotes gs name g1 = promotes gs name g) by reflexivity. rewrite P1, P.
+      assert (T : to_add_promoted gs g1 j = []).
+      { unfold to_add_promoted, to_add. change (marks_of gs g1) with (marks_of gs g). change (bases_of gs g1) with (bases_of gs g).
+        subst g1. unfold to_add_promoted, to_add. destruct (nth_error (marks_of gs g) j); apply (second_to_add_with_nil gs g); reflexivity. }
+      rewrite T. simpl. rewrite app_nil_r. reflexivity.
+    + intro H. inversion H. clear H.
+      set (g1 := mkG (gcontours g) (gcomps g) (gwidth g) (ganchors g ++ sorted_items (to_add gs g))).
+      destruct (skipped mk name g1); [reflexivity|].
+      assert (P1 : promotes gs name g1 = promotes gs name g) by reflexivity. rewrite P1, P.
+      assert (T : to_add gs g1 = []).
+      { unfold to_add. change (marks_of gs g1) with (marks_of gs g). change (bases_of gs g1) with (bases_of gs g).
+        apply (second_to_add_with_nil gs g); reflexivity. }
+      rewrite T. simpl. rewrite app_nil_r. reflexivity. Qed.
+
 Theorem second_run_adds_nothing gs mk name g g' :
   propagate_step gs mk name g = Some g' -> propagate_step gs mk name g' = Some g'.
-Proof.
-  unfold propagate_step. destruct (skipped mk name g) eqn:S.
-  - intro H. inversion H. subst g'. rewrite S. reflexivity.
-  - destruct (promotes gs name g) eqn:P; [discriminate|]. intro H. inversion H. clear H.
-    set (g1 := mkG (gcontours g) (gcomps g) (gwidth g) (ganchors g ++ sorted_items (to_add gs g))).
-    destruct (skipped mk name g1); [reflexivity|].
-    assert (P1 : promotes gs name g1 = promotes gs name g) by reflexivity. rewrite P1, P.
-    assert (T : to_add gs g1 = []).
-    { rewrite to_add_unfold. change (gcomps g1) with (gcomps g).
-      rewrite fold_all_guarded; [apply fold_adjust_nil|].
-      intros n Hn. unfold guard. change (ganchors g1) with (ganchors g ++ sorted_items (to_add gs g)).
-      destruct (guard (ganchors g) n) eqn:G; [apply existsb_app_l; exact G|].
-      destruct (names_fold_covers gs _ (ganchors g) _ [] n Hn G (base_names_hit _ _ _ Hn)) as [k [Hp Hk]].
-      rewrite existsb_app. apply orb_true_iff. right. apply existsb_exists.
-      assert (Hk2 : In k (keys (sorted_items (to_add gs g)))).
-      { apply sorted_items_keys. rewrite to_add_unfold. apply fold_adjust_keys. exact Hk. }
-      unfold keys in Hk2. apply in_map_iff in Hk2. destruct Hk2 as [[k' v] [E Hin]]. simpl in E. subst k'.
-      exists (k, v). split; [exact Hin | exact Hp]. }
-    rewrite T. simpl. rewrite app_nil_r. reflexivity. Qed.
+Proof. apply second_run_adds_nothing_p. Qed.
 
 (* ---------- non-vacuity: a composite of a base and an attaching mark ---------- *)
 Local Open Scope Z_scope.
@@ -266,3 +325,17 @@ Example ring_example :
   /\ option_map (fun g => map (fun a => (this (fst (snd a)), this (snd (snd a)))) (ganchors g)) (propagate_step gs [] [111]%Z o)
      = Some [(250 # 1, 250 # 1); (250 # 1, 800 # 1)]%Q.
 Proof. vm_compute. auto. Qed.
+
+(* ---------- non-vacuity: a mark made of two marks, the second promoted ---------- *)
+Example promoted_example :
+  let top := [116; 111; 112]%Z in let utop := (95 :: top)%Z in
+  let q := fun z => Q2Qc (inject_Z z) in
+  let tilde := mkG [] [] (q 0) [(utop, (q 0, q 510)); (top, (q 0, q 640))] in
+  let acute := mkG [] [] (q 0) [(utop, (q 0, q 500)); (top, (q 0, q 720))] in
+  let lig := mkG [] [([116]%Z, aff_id); ([97]%Z, aff_id)] (q 0) [] in
+  let gs := [([116]%Z, tilde); ([97]%Z, acute); ([116; 95; 97]%Z, lig)] in
+  propagate_step gs [] [116; 95; 97]%Z lig = None /\
+  option_map (fun g => map (fun a => (fst a, this (snd (snd a)))) (ganchors g)) (propagate_step_p gs [] [([116; 95; 97]%Z, 1%nat)] [116; 95; 97]%Z lig)
+     = Some [(utop, 500 # 1); (top, 640 # 1)]%Q.
+Proof. vm_compute. auto. Qed.
+
